@@ -56,7 +56,21 @@ def sig_of(rust):
         # the result borrows from a PARAMETER (lifetime 'a names an input): for the macro that is a reference the mock cannot lend from
         # itself - output.rs determine_reference_ownership classifies it like `&'static` (the configured value must be 'static)
         return f"fn f<'a>(&self, p: &'a C) -> {rust}"
+    if "&'t " in rust:
+        # the receiver's lifetime is ALSO written on a later parameter: still a borrow of self (the receiver is the first parameter with it)
+        return f"fn f<'t>(&'t self, _q: &'t C) -> {rust}"
+    if "&'r " in rust:
+        # the receiver's lifetime is declared by the TRAIT (`trait T<'r>`), not by the method
+        return f"fn f(&'r self) -> {rust}"
     return f"fn f<'s>(&'s self) -> {rust}" if "&'s " in rust else f"fn f(&self) -> {rust}"
+
+
+def trait_generics(rust):
+    return "<'r>" if "&'r " in rust else ""
+
+
+def has_param(rust):
+    return "&'a " in rust or "&'t " in rust
 
 
 def has_elided_ref(t):
@@ -107,7 +121,9 @@ def named_variants(infos, limit):
     for i in infos:
         r = rust_ty(i["ty"], named=True)
         if i["accept"] and r != i["rust"] and len(out) < limit:
-            out.append(dict(i, rust=r, named=True))
+            # three spellings in turn: lifetime declared by the method; also written on a second parameter; declared by the trait
+            lt = ["'s", "'t", "'r"][len(out) % 3]
+            out.append(dict(i, rust=r.replace("&'s ", f"&{lt} "), named=True))
     return out
 
 
@@ -484,11 +500,12 @@ def write_gen_rs(infos):
     parts = ["// generated by vlib/props/C17.py -- do not edit", "use crate::obs::*;", "use std::task::Poll;", "use unimock::*;", ""]
     arms = []
     for k, inf in enumerate(infos):
-        par = "&'a " in inf["rust"]
+        par = has_param(inf["rust"])
+        tg = "<'_>" if trait_generics(inf["rust"]) else ""
         blk = lambda tag, n, chain, par=par: (f"    {{ let v: In = Build::build(&mut Toks {{ t: toks, pos: 0 }}); "
                                               f"let u = Unimock::new(M{k}::f.{chain.replace('matching!()', 'matching!(_)') if par else chain}); "
-                                              f"crate::request!(out, \"{tag}\", {n}, u, T{k}{', &PARAM' if par else ''}); }}")
-        body = [f"#[unimock(api = M{k})]", f"pub trait T{k} {{ {sig_of(inf['rust'])}; }}",
+                                              f"crate::request!(out, \"{tag}\", {n}, u, T{k}{tg}{', &PARAM' if par else ''}); }}")
+        body = [f"#[unimock(api = M{k})]", f"pub trait T{k}{trait_generics(inf['rust'])} {{ {sig_of(inf['rust'])}; }}",
                 f"pub fn run{k}(toks: &[String], out: &mut Vec<String>) {{", f"    type In = {rust_in(inf['rust'], inf['in'])};",
                 f"    if toks.first().map(|s| s.as_str()) == Some(\"KIND\") {{ out.push(format!(\"K {{}}\", std::any::type_name::<<M{k}::f as MockFn>::OutputKind>())); return; }}",
                 blk("S", 3, "some_call(matching!()).returns(v)"), blk("O", 1, "next_call(matching!()).returns(v)")]
@@ -539,9 +556,9 @@ def probe_programs(progs):
 
 
 def probe_src(rust, in_ty, chain="some_call(matching!()).returns(v)"):
-    if "&'a " in rust:
+    if has_param(rust):
         chain = chain.replace("matching!()", "matching!(_)")
-    return (HDR + f"#[unimock(api = M)]\npub trait T {{ {sig_of(rust)}; }}\n"
+    return (HDR + f"#[unimock(api = M)]\npub trait T{trait_generics(rust)} {{ {sig_of(rust)}; }}\n"
             f"pub fn p(v: {rust_in(rust, in_ty)}) {{ let _ = Unimock::new(M::f.{chain}); }}\n")
 
 
